@@ -190,7 +190,7 @@ func verifK_NoFCReceiver() {
 		verifAssert(id == i+1, "C01+C11.k-nofc-fifo-prefix")
 	}
 	nr := rcv.(*noFlowControlReceiver[vitem])
-	verifAssert(!verifMutexHeld(&nr.ingestMu), "C15.k-nofc-lock-released")
+	verifAssert(!verifMutexHeld(&nr.ingestMu), "C09+C15.k-nofc-lock-released")
 }
 
 // K-REGKEY (C12 C15): concurrent registration / lookup for one affinity key.
